@@ -54,23 +54,32 @@ FindClosests stops one candidate too early: [ref0] instead of [ref0 ref1].`,
 				if !ok || is.Else == nil || counter != nil {
 					return true
 				}
-				var zeroed, incd types.Object
-				ast.Inspect(is.Body, func(m ast.Node) bool {
-					if as, ok := m.(*ast.AssignStmt); ok && as.Tok == token.ASSIGN && len(as.Lhs) == 1 {
-						if v, isC := constInt(info, as.Rhs[0]); isC && v == 0 {
-							zeroed = rootObj(info, as.Lhs[0])
+				// in either order of the two branches
+				find := func(a, b ast.Node) types.Object {
+					var zeroed, incd types.Object
+					ast.Inspect(a, func(m ast.Node) bool {
+						if as, ok := m.(*ast.AssignStmt); ok && as.Tok == token.ASSIGN && len(as.Lhs) == 1 {
+							if v, isC := constInt(info, as.Rhs[0]); isC && v == 0 {
+								zeroed = rootObj(info, as.Lhs[0])
+							}
 						}
+						return true
+					})
+					ast.Inspect(b, func(m ast.Node) bool {
+						if inc, ok := m.(*ast.IncDecStmt); ok && inc.Tok == token.INC {
+							incd = rootObj(info, inc.X)
+						}
+						return true
+					})
+					if zeroed != nil && zeroed == incd {
+						return zeroed
 					}
-					return true
-				})
-				ast.Inspect(is.Else, func(m ast.Node) bool {
-					if inc, ok := m.(*ast.IncDecStmt); ok && inc.Tok == token.INC {
-						incd = rootObj(info, inc.X)
-					}
-					return true
-				})
-				if zeroed != nil && zeroed == incd {
-					counter = zeroed
+					return nil
+				}
+				if o := find(is.Body, is.Else); o != nil {
+					counter = o
+				} else if o := find(is.Else, is.Body); o != nil {
+					counter = o
 				}
 				return true
 			})
